@@ -147,7 +147,56 @@ class ClassModel:
                 # bare pointer use
                 E, how = self.extent_of(x, f, '0')
                 out.append((x, '0', E, how))
+        # pointers obtained from a checked pointer-returning accessor of the same object
+        # (`const uint8_t* p = pgetv(offset, 3); ... p[2]`): each use is an access at offset + k
+        derived = {}
+        for vd in walk(body):
+            if vd.get('kind') == 'VarDecl' and '*' in (qtype(vd) or '') and kids(vd):
+                init = strip_casts(kids(vd)[-1])
+                if init is not None and init.get('kind') == 'CXXMemberCallExpr' and (member_call_object(init) is None or is_this(member_call_object(init))):
+                    d = callee_decl(init, self.unit)
+                    pa = self.returned_pointer_param(d) if d else None
+                    if pa is not None:
+                        args = call_args(init)
+                        if pa < len(args):
+                            derived[vd['id']] = self.inl.c(args[pa])
+        for x in walk(body):
+            if x.get('kind') == 'ArraySubscriptExpr':
+                rd = ref_decl(strip_casts(x['inner'][0]))
+                if rd and rd.get('id') in derived:
+                    k_ = self.inl.c(x['inner'][1])
+                    base = derived[rd['id']]
+                    A = base if k_ == '0' else '(%s + %s)' % (base, k_)
+                    out.append((x, A, '1', 'subscript of a pointer returned by a checked accessor'))
+            if x.get('kind') == 'CallExpr' and call_name(x) in ('memcpy', 'memcmp', 'memmove') and len(call_args(x)) == 3:
+                for a in call_args(x)[:2]:
+                    rd = ref_decl(strip_casts(a))
+                    if rd and rd.get('id') in derived:
+                        out.append((x, derived[rd['id']], self.inl.c(call_args(x)[2]), '%s through a pointer returned by a checked accessor' % call_name(x)))
         return out
+
+    def returned_pointer_param(self, d):
+        """index of the parameter that is the start offset of the pointer a method returns (`return data + offset`)"""
+        f = None
+        for m in self.methods:
+            if m.get('mangledName') == d.get('mangledName') and body_of(m) is not None:
+                f = m
+        if f is None:
+            return None
+        for r in walk(body_of(f)):
+            if r.get('kind') == 'ReturnStmt' and kids(r):
+                e = strip_casts(kids(r)[0])
+                if e is not None and e.get('kind') == 'BinaryOperator' and e.get('opcode') == '+' and '*' in (qtype(e) or ''):
+                    sides = [strip_casts(y) for y in e['inner']]
+                    fld = [y for y in sides if y.get('kind') == 'MemberExpr' and y.get('name') == self.field[5:]]
+                    oth = [y for y in sides if y not in fld]
+                    if fld and oth:
+                        rd = ref_decl(oth[0])
+                        ps = params_of(f)
+                        for i, p_ in enumerate(ps):
+                            if rd and p_.get('id') == rd.get('id'):
+                                return i
+        return None
 
     def extent_of(self, ptr, f, A):
         p, c = up_through_casts(ptr)
@@ -381,11 +430,13 @@ def cstr_extent_functions(cm):
 
 
 def check_pput(ctx, u, R):
-    """StringWriter::pput<T>: wrap-checked end offset, grow-to-cover, zero fill, copy shape."""
+    """StringWriter::pput<T>: wrap-checked end offset, grow-to-cover, zero fill, copy shape.  The
+    preparation may live in pput itself or in a helper that returns the destination pointer."""
     sw = [f for f in u.functions if strip_targs(u.qualname(f)) == STRW + '::pput' and not is_dependent_pattern(f, u)]
     ctx.require(len(sw) >= 5, 'StringWriter::pput instantiations not found')
     inl = GetterInliner(u, STRW)
     seen = set()
+    smax = (1 << 64) - 1
     for f in sw:
         t = [c['type']['qualType'] for c in kids(f) if c.get('kind') == 'TemplateArgument'][0]
         if t in seen:
@@ -396,47 +447,62 @@ def check_pput(ctx, u, R):
         body = body_of(f)
         copies = [c for c in walk(body) if c.get('kind') == 'CallExpr' and call_name(c) in ('memcpy', '__builtin_memcpy', 'memmove')]
         if len(copies) != 1:
-            ctx.bad(R, lab + '|copy', body, 'expected exactly one memcpy into the string, found %d' % len(copies))
+            ctx.undecided(R, lab + '|copy', body, 'expected exactly one memcpy into the string, found %d' % len(copies))
             continue
         cp = copies[0]
         dst, srcp, nbytes = call_args(cp)
-        dstc = inl.c(dst)
         szT = sizeof_type(t)
         nb = int_value(nbytes)
         off = params_of(f)[0].get('name')
+        # where the destination pointer is formed: here, or at the return of a preparing helper
+        site, dexpr, size_term = cp, dst, str(szT)
+        d0 = strip_casts(dst)
+        if d0 is not None and d0.get('kind') == 'CXXMemberCallExpr' and is_this(member_call_object(d0) or {'kind': 'CXXThisExpr'}):
+            hd = callee_decl(d0, u)
+            hf = next((m for m in u.functions if hd and m.get('mangledName') == hd.get('mangledName') and body_of(m) is not None), None)
+            hargs = call_args(d0)
+            if hf is not None and len(params_of(hf)) == 2 and len(hargs) == 2 and (ref_decl(hargs[0]) or {}).get('id') == params_of(f)[0]['id'] and int_value(hargs[1]) == szT:
+                rets = [r for r in walk(body_of(hf)) if r.get('kind') == 'ReturnStmt' and kids(r)]
+                if len(rets) == 1:
+                    site, dexpr = rets[0], kids(rets[0])[0]
+                    off = params_of(hf)[0].get('name')
+                    size_term = params_of(hf)[1].get('name')
+                    ctx.fn(strip_targs(u.qualname(hf)))
+        dstc = inl.c(dexpr)
         ok_dst = dstc in ('(%s + this.data.data())' % off, '(this.data.data() + %s)' % off)
         ctx.check(ok_dst and nb is not None and nb == szT, R, lab + '|copy-shape', cp, 'memcpy(data.data() + %s, &v, %s)' % (off, nb),
                   'copy is memcpy(%s, ..., %s); expected destination data.data() + %s and sizeof(T) = %s bytes' % (dstc, canon(nbytes), off, szT))
-        # the end offset offset + sizeof(T), however it is spelled (hoisted locals are substituted away)
-        ends = ('(%s + %s)' % (off, szT), '(%s + %s)' % (szT, off))
-        rels = rels_at(cp, inl)
+        # the end offset offset + size, however it is spelled (hoisted locals are substituted away)
+        ends = ('(%s + %s)' % (off, size_term), '(%s + %s)' % (size_term, off))
+        rels = rels_at(site, inl)
         end = next((e for e in ends if any(e in (a_, b_) for a_, _, b_ in rels)), ends[0])
-        smax = (1 << 64) - 1
         wrap_ok = holds(rels, end, ('>=',), off) or holds(rels, end, ('>',), off)
-        # or the pre-check form: offset <= SIZE_MAX - sizeof(T)
         for a_, op_, b_ in rels:
             for x_, o_, y_ in ((a_, op_, b_), (b_, FLIP[op_], a_)):
-                if x_ == off and y_.lstrip('-').isdigit():
+                # pre-check forms: offset <= SIZE_MAX - size   /   size <= SIZE_MAX - offset
+                if size_term.isdigit() and x_ == off and y_.lstrip('-').isdigit():
                     c_ = int(y_)
-                    if (o_ == '<=' and c_ <= smax - szT) or (o_ == '<' and c_ <= smax - szT + 1):
+                    if (o_ == '<=' and c_ <= smax - int(size_term)) or (o_ == '<' and c_ <= smax - int(size_term) + 1):
                         wrap_ok = True
-        ctx.check(wrap_ok, R, lab + '|wrap-check', cp, 'offset + sizeof(T) cannot wrap at the copy (`end < offset` or `offset > SIZE_MAX - sizeof(T)` leads to a throw)',
+                if o_ in ('<=',) and ((x_ == off and y_ == '(%d - %s)' % (smax, size_term)) or (x_ == size_term and y_ == '(%d - %s)' % (smax, off))):
+                    wrap_ok = True
+        ctx.check(wrap_ok, R, lab + '|wrap-check', site, 'offset + sizeof(T) cannot wrap at the copy (`end < offset` or `offset > SIZE_MAX - size` leads to a throw)',
                   'the sum %s + sizeof(T) is not tested for wrap-around before it is used as the new size: pput(SIZE_MAX-1, v) resizes to a tiny size and copies far outside the buffer' % off)
-        # grow: a preceding `if (end > size) resize(end)` (either orientation)
+        # grow: a preceding `if (end > size()) resize(end)` (either orientation)
         grow_ok = False
         detail = ''
-        for s in preceding_statements(cp):
+        for s in preceding_statements(site):
             if s.get('kind') == 'IfStmt':
                 cond, then, els = if_parts(s)
                 r = relation(cond, True)
                 if r:
                     a, op, b = inl.c(r[0]), r[1], inl.c(r[2])
-                    is_gt = (a == end and op == '>' and b == 'this.data.size()') or (b == end and op == '<' and a == 'this.data.size()')
+                    is_gt = (a in ends and op == '>' and b == 'this.data.size()') or (b in ends and op == '<' and a == 'this.data.size()')
                     if is_gt and then is not None:
                         for c in walk(then):
                             if c.get('kind') == 'CXXMemberCallExpr' and call_name(c) in ('resize', 'extend_to'):
                                 a0 = inl.c(call_args(c)[0])
-                                if a0 == end:
+                                if a0 in ends:
                                     grow_ok = True
                                     fill = call_args(c)[1] if len(call_args(c)) > 1 else None
                                     fv = int_value(fill) if fill is not None and fill.get('kind') != 'CXXDefaultArgExpr' else 0
@@ -444,11 +510,9 @@ def check_pput(ctx, u, R):
                     elif then is not None and any(c.get('kind') == 'CXXMemberCallExpr' and call_name(c) in ('resize', 'extend_to') for c in walk(then)):
                         detail = 'the grow is guarded by `%s %s %s`, not by `%s > size()`' % (a, op, b, end)
         if not grow_ok:
-            # alternatively a dominating fact end <= size()
-            grow_ok = holds(rels, end, ('<=',), 'this.data.size()')
-        ctx.check(grow_ok, R, lab + '|grow-covers-write', cp, 'string grown to %s whenever %s > size()' % (end, end),
+            grow_ok = any(holds(rels, e_, ('<=',), 'this.data.size()') for e_ in ends)
+        ctx.check(grow_ok, R, lab + '|grow-covers-write', site, 'string grown to %s whenever %s > size()' % (end, end),
                   'the string is not guaranteed to cover [%s, %s) at the copy: %s' % (off, end, detail or 'no `if (%s > size()) resize(%s)` dominates the memcpy' % (end, end)))
-
 
 
 def run(ctx):
@@ -483,7 +547,7 @@ def run(ctx):
                 counts[k0] = counts.get(k0, 0) + 1
                 key = k0 if counts[k0] == 1 else '%s#%d' % (k0, counts[k0])
                 if E is None:
-                    ctx.bad(R, key, node, 'cannot determine the extent of this buffer access (%s)' % how)
+                    ctx.undecided(R, key, node, 'cannot determine the extent of this buffer access (%s)' % how)
                     continue
                 ok, why = inbounds(cm.rels(node), A, E, cm.cap)
                 if ok:
@@ -552,6 +616,9 @@ def run(ctx):
             # J3 clamp-after
             if _clamp_follows(rd, x):
                 ctx.ok(R, key, x, 'advance by %s is followed by the clamp `if (offset > length) offset = length` on every path' % Dc)
+                continue
+            if ' ? ' in Dc or 'memchr' in Dc or 'strnlen' in Dc or any('*' in (qtype(y) or '') and y.get('kind') == 'BinaryOperator' and y.get('opcode') == '-' for y in (walk(Dn) if Dn is not None else [])):
+                ctx.undecided(R, key, x, 'the cursor is advanced by `%s`, an expression (conditional / pointer difference / library search) the bounds engine does not model' % Dc)
                 continue
             ctx.bad(R, key, x, 'cursor advanced by %s without a dominating bounds check of that extent, a clamping read that returned it, or a following clamp: the cursor can end beyond the data (remaining() underflows). %s' % (Dc, why))
 
